@@ -1,24 +1,88 @@
 """Extended-real model of Python/numpy floats for the symbolic executor.
 
-A float is (kind, val): kind in {fin, nan, pinf, ninf} (z3 enum sort FK), val a
-z3 Real that is meaningful only when kind == fin.  Finite arithmetic is EXACT
-(no rounding, no float32/float64 distinction) -- this is the "machine arithmetic
-treated as mathematical" assumption listed in every evidence file.
+A float is (nan, pinf, ninf, val): three mutually exclusive Boolean flags and a z3 Real that is meaningful only when
+no flag is set.  In arrays / function arguments the flags are packed into one value of the enum sort FK
+{fin, nan, pinf, ninf}.  Finite arithmetic is EXACT (no rounding, no float32/float64 distinction) -- this is the
+"machine arithmetic treated as mathematical" assumption listed in every evidence file.
 """
 import math
 import z3
 
 FK, (FIN, NAN, PINF, NINF) = z3.EnumSort("FK", ["fin", "nan", "pinf", "ninf"])
 R0 = z3.RealVal(0)
+T = z3.BoolVal(True)
+Fa = z3.BoolVal(False)
+
+
+def _and(*xs):
+    out = []
+    for x in xs:
+        if z3.is_false(x):
+            return Fa
+        if z3.is_true(x):
+            continue
+        out.append(x)
+    if not out:
+        return T
+    return out[0] if len(out) == 1 else z3.And(*out)
+
+
+def _or(*xs):
+    out = []
+    for x in xs:
+        if z3.is_true(x):
+            return T
+        if z3.is_false(x):
+            continue
+        out.append(x)
+    if not out:
+        return Fa
+    return out[0] if len(out) == 1 else z3.Or(*out)
+
+
+def _not(x):
+    if z3.is_true(x):
+        return Fa
+    if z3.is_false(x):
+        return T
+    return z3.Not(x)
 
 
 class SFloat:
-    __slots__ = ("k", "v", "fin")
+    __slots__ = ("nan", "pinf", "ninf", "v", "fin", "_k")
 
     def __init__(self, k, v, fin=False):
-        self.k = k
+        """from a packed kind term k (sort FK) and a Real"""
         self.v = v
-        self.fin = fin or (z3.is_app(k) and k.eq(FIN))  # statically known finite
+        self._k = k
+        if fin or (z3.is_app(k) and k.eq(FIN)):
+            self.fin = True
+            self.nan = self.pinf = self.ninf = Fa
+            self._k = FIN
+        else:
+            self.fin = False
+            if z3.is_app(k) and k.eq(NAN):
+                self.nan, self.pinf, self.ninf = T, Fa, Fa
+            elif z3.is_app(k) and k.eq(PINF):
+                self.nan, self.pinf, self.ninf = Fa, T, Fa
+            elif z3.is_app(k) and k.eq(NINF):
+                self.nan, self.pinf, self.ninf = Fa, Fa, T
+            else:
+                self.nan, self.pinf, self.ninf = (k == NAN), (k == PINF), (k == NINF)
+
+    @classmethod
+    def flags(cls, nan, pinf, ninf, v):
+        o = cls.__new__(cls)
+        o.nan, o.pinf, o.ninf, o.v = nan, pinf, ninf, v
+        o.fin = z3.is_false(nan) and z3.is_false(pinf) and z3.is_false(ninf)
+        o._k = FIN if o.fin else None
+        return o
+
+    @property
+    def k(self):
+        if self._k is None:
+            self._k = z3.If(self.nan, NAN, z3.If(self.pinf, PINF, z3.If(self.ninf, NINF, FIN)))
+        return self._k
 
     def __repr__(self):
         return "SFloat(%s,%s)" % (self.k, self.v)
@@ -55,162 +119,135 @@ FNINF = SFloat(NINF, R0)
 
 
 def isnan(a):
-    if a.fin:
-        return z3.BoolVal(False)
-    return a.k == NAN
+    return a.nan
 
 
 def isfin(a):
     if a.fin:
-        return z3.BoolVal(True)
-    return a.k == FIN
+        return T
+    return _not(_or(a.nan, a.pinf, a.ninf))
 
 
 def isinf(a):
-    if a.fin:
-        return z3.BoolVal(False)
-    return z3.Or(a.k == PINF, a.k == NINF)
-
-
-def _sgn_pos(a):
-    """a is non-nan: True iff a > 0 (inf included)"""
-    return z3.Or(a.k == PINF, z3.And(a.k == FIN, a.v > 0))
-
-
-def _sgn_neg(a):
-    return z3.Or(a.k == NINF, z3.And(a.k == FIN, a.v < 0))
-
-
-def _is_zero(a):
-    return z3.And(a.k == FIN, a.v == 0)
+    return _or(a.pinf, a.ninf)
 
 
 def neg(a):
     if a.fin:
         return SFloat(FIN, -a.v, True)
-    k = z3.If(a.k == PINF, NINF, z3.If(a.k == NINF, PINF, a.k))
-    return SFloat(k, -a.v)
+    return SFloat.flags(a.nan, a.ninf, a.pinf, -a.v)
+
+
+def _with_kind_of(a, v):
+    """a float with a's flags (same packed kind term) and value v"""
+    o = SFloat.flags(a.nan, a.pinf, a.ninf, v)
+    o._k = a._k
+    return o
 
 
 def add(a, b):
     if a.fin and b.fin:
         return SFloat(FIN, a.v + b.v, True)
-    k = z3.If(
-        z3.Or(isnan(a), isnan(b)),
-        NAN,
-        z3.If(
-            z3.And(isfin(a), isfin(b)),
-            FIN,
-            z3.If(isfin(a), b.k, z3.If(isfin(b), a.k, z3.If(a.k == b.k, a.k, NAN))),
-        ),
-    )
-    return SFloat(k, a.v + b.v)
+    if b.fin:  # x + finite has exactly x's kind
+        return _with_kind_of(a, a.v + b.v)
+    if a.fin:
+        return _with_kind_of(b, a.v + b.v)
+    nan = _or(a.nan, b.nan, _and(a.pinf, b.ninf), _and(a.ninf, b.pinf))
+    pinf = _and(_not(nan), _or(a.pinf, b.pinf))
+    ninf = _and(_not(nan), _or(a.ninf, b.ninf))
+    return SFloat.flags(nan, pinf, ninf, a.v + b.v)
 
 
 def sub(a, b):
     return add(a, neg(b))
 
 
+def _pos(a):
+    """a > 0 (inf included), a not nan"""
+    return _or(a.pinf, _and(isfin(a), a.v > 0))
+
+
+def _neg(a):
+    return _or(a.ninf, _and(isfin(a), a.v < 0))
+
+
+def _zero(a):
+    return _and(isfin(a), a.v == 0)
+
+
 def mul(a, b):
     if a.fin and b.fin:
         return SFloat(FIN, a.v * b.v, True)
-    pos = z3.Or(z3.And(_sgn_pos(a), _sgn_pos(b)), z3.And(_sgn_neg(a), _sgn_neg(b)))
-    k = z3.If(
-        z3.Or(isnan(a), isnan(b)),
-        NAN,
-        z3.If(
-            z3.And(isfin(a), isfin(b)),
-            FIN,
-            z3.If(z3.Or(_is_zero(a), _is_zero(b)), NAN, z3.If(pos, PINF, NINF)),
-        ),
-    )
-    return SFloat(k, a.v * b.v)
+    anyinf = _or(isinf(a), isinf(b))
+    nan = _or(a.nan, b.nan, _and(anyinf, _or(_zero(a), _zero(b))))
+    pos = _or(_and(_pos(a), _pos(b)), _and(_neg(a), _neg(b)))
+    pinf = _and(_not(nan), anyinf, pos)
+    ninf = _and(_not(nan), anyinf, _not(pos))
+    return SFloat.flags(nan, pinf, ninf, a.v * b.v)
 
 
 def div_nonzero(a, b):
-    """a / b assuming the caller discharged (or modelled) the b == 0 case:
-    finite b is treated as non-zero here (array semantics for 0 are in div_array)."""
+    """a / b where a finite b is non-zero (the b == 0 case is the caller's: obligation or div_array)"""
     if a.fin and b.fin:
         return SFloat(FIN, a.v / b.v, True)
-    posb = _sgn_pos(b)
-    k = z3.If(
-        z3.Or(isnan(a), isnan(b)),
-        NAN,
-        z3.If(
-            isfin(b),
-            z3.If(isfin(a), FIN, z3.If(posb, a.k, z3.If(a.k == PINF, NINF, PINF))),
-            z3.If(isfin(a), FIN, NAN),
-        ),
-    )
-    v = z3.If(z3.And(isfin(a), isfin(b)), a.v / b.v, R0)
-    return SFloat(k, v)
+    nan = _or(a.nan, b.nan, _and(isinf(a), isinf(b)))
+    # inf / finite -> inf with sign ; finite / inf -> 0
+    posb = _pos(b)
+    pinf = _and(_not(nan), isfin(b), _or(_and(a.pinf, posb), _and(a.ninf, _not(posb))))
+    ninf = _and(_not(nan), isfin(b), _or(_and(a.ninf, posb), _and(a.pinf, _not(posb))))
+    v = z3.If(_and(isfin(a), isfin(b)), a.v / b.v, R0)
+    return SFloat.flags(nan, pinf, ninf, v)
 
 
 def div_array(a, b):
     """numpy array/array (or np.float32 scalar) division: x/0 -> +-inf, 0/0 -> nan, no exception"""
-    bz = _is_zero(b)
+    bz = _zero(b)
     r = div_nonzero(a, b)
-    k = z3.If(
-        z3.And(bz, z3.Not(isnan(a))),
-        z3.If(_is_zero(a), NAN, z3.If(_sgn_pos(a), PINF, NINF)),
-        r.k,
-    )
-    return SFloat(k, z3.If(bz, R0, r.v))
+    nan = _or(_and(_not(bz), r.nan), _and(bz, _or(a.nan, _zero(a))))
+    pinf = _or(_and(_not(bz), r.pinf), _and(bz, _not(a.nan), _pos(a)))
+    ninf = _or(_and(_not(bz), r.ninf), _and(bz, _not(a.nan), _neg(a)))
+    return SFloat.flags(nan, pinf, ninf, z3.If(bz, R0, r.v))
 
 
 def fabs(a):
+    av = z3.If(a.v >= 0, a.v, -a.v)
     if a.fin:
-        return SFloat(FIN, z3.If(a.v >= 0, a.v, -a.v), True)
-    k = z3.If(a.k == NINF, PINF, a.k)
-    return SFloat(k, z3.If(a.v >= 0, a.v, -a.v))
+        return SFloat(FIN, av, True)
+    return SFloat.flags(a.nan, _or(a.pinf, a.ninf), Fa, av)
 
 
 def lt(a, b):
     if a.fin and b.fin:
         return a.v < b.v
-    return z3.And(
-        z3.Not(isnan(a)),
-        z3.Not(isnan(b)),
-        z3.Or(
-            z3.And(a.k == NINF, b.k != NINF),
-            z3.And(b.k == PINF, a.k != PINF),
-            z3.And(isfin(a), isfin(b), a.v < b.v),
-        ),
-    )
+    return _and(_not(a.nan), _not(b.nan),
+                _or(_and(a.ninf, _not(b.ninf)), _and(b.pinf, _not(a.pinf)), _and(isfin(a), isfin(b), a.v < b.v)))
 
 
 def le(a, b):
     if a.fin and b.fin:
         return a.v <= b.v
-    return z3.And(
-        z3.Not(isnan(a)),
-        z3.Not(isnan(b)),
-        z3.Or(a.k == NINF, b.k == PINF, z3.And(isfin(a), isfin(b), a.v <= b.v)),
-    )
+    return _and(_not(a.nan), _not(b.nan), _or(a.ninf, b.pinf, _and(isfin(a), isfin(b), a.v <= b.v)))
 
 
 def eq(a, b):
     """IEEE ==  (nan != nan)"""
     if a.fin and b.fin:
         return a.v == b.v
-    return z3.And(
-        z3.Not(isnan(a)),
-        z3.Not(isnan(b)),
-        z3.Or(z3.And(isfin(a), isfin(b), a.v == b.v), z3.And(a.k == b.k, z3.Not(isfin(a)))),
-    )
+    return _and(_not(a.nan), _not(b.nan),
+                _or(_and(isfin(a), isfin(b), a.v == b.v), _and(a.pinf, b.pinf), _and(a.ninf, b.ninf)))
 
 
 def same(a, b):
     """spec identity: nan is the same as nan"""
     if a.fin and b.fin:
         return a.v == b.v
-    return z3.And(a.k == b.k, z3.Implies(isfin(a), a.v == b.v))
+    return _and(a.nan == b.nan, a.pinf == b.pinf, a.ninf == b.ninf, z3.Implies(_and(isfin(a), isfin(b)), a.v == b.v))
 
 
 def ite(c, a, b):
     if a.fin and b.fin:
         return SFloat(FIN, z3.If(c, a.v, b.v), True)
-    return SFloat(z3.If(c, a.k, b.k), z3.If(c, a.v, b.v))
+    return SFloat.flags(z3.If(c, a.nan, b.nan), z3.If(c, a.pinf, b.pinf), z3.If(c, a.ninf, b.ninf), z3.If(c, a.v, b.v))
 
 
 def fmin2(a, b):
